@@ -116,3 +116,32 @@ pub assume_specification<'a, T, B, F: FnMut(B, &'a T) -> B> [core::slice::Iter::
     requires
         forall|b: B, x: &'a T| #[trigger] f.requires((b, x)),
 ;
+
+/// Text produced by `{}` (Display) and `{:?}`-style (Debug and other flags: uninterpreted) formatting
+pub trait VxDisplay {
+    spec fn vx_display(&self) -> Seq<char>;
+    spec fn vx_debug(&self) -> Seq<char>;
+}
+pub uninterp spec fn vx_debug_text<T: ?Sized>(t: &T) -> Seq<char>;
+/// decimal text of an unsigned integer (std's Display for integers)
+pub uninterp spec fn dec_str(n: nat) -> Seq<char>;
+impl VxDisplay for str {
+    open spec fn vx_display(&self) -> Seq<char> { self@ }
+    open spec fn vx_debug(&self) -> Seq<char> { vx_debug_text(self) }
+}
+impl VxDisplay for String {
+    open spec fn vx_display(&self) -> Seq<char> { self@ }
+    open spec fn vx_debug(&self) -> Seq<char> { vx_debug_text(self) }
+}
+impl VxDisplay for u64 {
+    open spec fn vx_display(&self) -> Seq<char> { dec_str(*self as nat) }
+    open spec fn vx_debug(&self) -> Seq<char> { vx_debug_text(self) }
+}
+impl VxDisplay for u32 {
+    open spec fn vx_display(&self) -> Seq<char> { dec_str(*self as nat) }
+    open spec fn vx_debug(&self) -> Seq<char> { vx_debug_text(self) }
+}
+impl<T: VxDisplay + ?Sized> VxDisplay for &T {
+    open spec fn vx_display(&self) -> Seq<char> { (**self).vx_display() }
+    open spec fn vx_debug(&self) -> Seq<char> { (**self).vx_debug() }
+}
